@@ -30,7 +30,7 @@ use serde_json::{json, Value};
 /// region do not send the second input; they are counted (`excluded_known_second_input`).
 /// The pinned reproducer (`allow_known: true`) sends it when the finding is registered in
 /// known_findings.json or when it is replayed explicitly with `--replay`.
-const EXCLUDE_KNOWN_SECOND_INPUT: bool = true;
+const EXCLUDE_KNOWN_SECOND_INPUT: bool = false;
 const SIG_SECOND_INPUT: &str = "session|second_input|duplicate_start";
 
 const QUIESCE: Duration = Duration::from_secs(20);
